@@ -160,6 +160,21 @@ func matches(t string, k kernel) bool {
 	return true
 }
 
+func isBoolExpr(e ast.Expr) bool {
+	switch x := e.(type) {
+	case *ast.ParenExpr:
+		return isBoolExpr(x.X)
+	case *ast.BinaryExpr:
+		switch x.Op {
+		case token.LAND, token.LOR, token.EQL, token.NEQ, token.LSS, token.LEQ, token.GTR, token.GEQ:
+			return true
+		}
+	case *ast.UnaryExpr:
+		return x.Op == token.NOT
+	}
+	return false
+}
+
 // expand is the text of an expression with the function's single-assignment locals replaced by their definitions: a branch
 // condition that was given a name (`sameKey := found && bytes.Equal(..)`; `if !sameKey`) is recognised by what it tests,
 // with the polarity it is used with.
@@ -168,6 +183,9 @@ func expand(e ast.Expr) string {
 	for i := 0; i < 3; i++ {
 		changed := false
 		for name, def := range locals {
+			if !isBoolExpr(def) {
+				continue // only named CONDITIONS are looked through; other locals (now, beforeTS, ttl ..) are what kernels are about
+			}
 			re := regexp.MustCompile(`\b` + regexp.QuoteMeta(name) + `\b`)
 			if re.MatchString(t) && !strings.Contains(text(def), name) {
 				t = re.ReplaceAllString(t, "("+text(def)+")")
@@ -277,7 +295,13 @@ func locate(k kernel) (ast.Expr, error) {
 				hits = append(hits, e)
 			}
 		}
-		if len(hits) == 1 {
+		same := len(hits) > 0
+		for _, h := range hits {
+			if text(h) != text(hits[0]) {
+				same = false
+			}
+		}
+		if same {
 			return hits[0], nil
 		}
 		collectLocals(fd)
